@@ -20,10 +20,12 @@ type C16Scn struct {
 	CtxKind    string            `json:"ctx_kind"` // cancel | deadline | expired | parent | none
 	Faults     map[string]string `json:"faults,omitempty"`
 	AllThunk   bool              `json:"all_thunk,omitempty"`
-	Park       []string          `json:"park"`        // site classes that park
-	CancelAt   int               `json:"cancel_at"`   // -1: the tape decides; k>=0: forced when k resolver gates have parked
-	CancelStep int               `json:"cancel_step"` // -1: the tape decides; k>=0: forced once the run has taken k steps
-	BothReady  bool              `json:"both_ready"`  // park the caller before its select
+	Park       []string          `json:"park"`                // site classes that park
+	CancelAt   int               `json:"cancel_at"`           // -1: the tape decides; k>=0: forced when k resolver gates have parked
+	CancelStep int               `json:"cancel_step"`         // -1: the tape decides; k>=0: forced once the run has taken k steps
+	BothReady  bool              `json:"both_ready"`          // park the caller before its select
+	CancelOn   string            `json:"cancel_on,omitempty"` // forced when a gate of this site class has parked
+	Pre        bool              `json:"pre,omitempty"`       // a cancelled request on an extension-bearing schema precedes the request
 	Sticky     int               `json:"stickiness"`
 }
 
@@ -44,6 +46,13 @@ var c16Queries = []string{
 	`{ x1 x2 x3 x4 x5 x6 x7 x8 }`,
 	`mutation { m1(v:1) { id } m2(v:2) { name } s1(v:3) }`,
 	`{ u { ... on A { aOnly leafy { s } } ... on B { bOnly } } c { matrix cOnly } }`,
+	`query($st:Stamp, $f:Filter){ echo(st:$st, f:$f) x1 }`,
+}
+
+// variables per query (custom scalar values are coerced by user code that is a
+// scheduling point: "during variable coercion")
+var c16Vars = map[string]map[string]interface{}{
+	`query($st:Stamp, $f:Filter){ echo(st:$st, f:$f) x1 }`: {"st": "v1", "f": map[string]interface{}{"st": "v2", "min": 2}},
 }
 
 var c16CtxKinds = []string{"cancel", "deadline", "expired", "parent"}
@@ -57,7 +66,7 @@ func c16ResolverCount(i int) int {
 		for j, q := range c16Queries {
 			w := NewWorld("A")
 			rc := &ReqCtx{Task: "solo", W: w, RootTok: Tok{T: "Query"}}
-			graphql.Do(graphql.Params{Schema: w.Schema, RequestString: q, Context: WithReq(context.Background(), rc)})
+			graphql.Do(graphql.Params{Schema: w.Schema, RequestString: q, VariableValues: c16Vars[q], Context: WithReq(context.Background(), rc)})
 			n := 0
 			for _, v := range rc.Seen {
 				n += v
@@ -72,17 +81,17 @@ func (c16) EnumSize(tier string) int {
 	// every (query, ctx kind, resolver kind, entry, cancel point k in 0..n+1)
 	n := 0
 	for i := range c16Queries {
-		n += (c16ResolverCount(i) + 2) * len(c16CtxKinds) * 3 * 2
+		n += (c16ResolverCount(i) + 3) * len(c16CtxKinds) * 3 * 2
 	}
 	return n
 }
 
 func (p c16) Gen(seed uint64, enum int, tier string) json.RawMessage {
 	s := C16Scn{CancelAt: -1, CancelStep: -1, Sticky: 50}
-	allPark := []string{"resolver", "thunk", "rtype", "plan.exec.start", "plan.exec.send", "client"}
+	allPark := []string{"resolver", "thunk", "rtype", "scalar", "plan.exec.start", "plan.exec.send", "client"}
 	if enum >= 0 {
 		for i, q := range c16Queries {
-			per := (c16ResolverCount(i) + 2) * len(c16CtxKinds) * 3 * 2
+			per := (c16ResolverCount(i) + 3) * len(c16CtxKinds) * 3 * 2
 			if enum >= per {
 				enum -= per
 				continue
@@ -95,6 +104,11 @@ func (p c16) Gen(seed uint64, enum int, tier string) json.RawMessage {
 			s.CtxKind = c16CtxKinds[enum%len(c16CtxKinds)]
 			enum /= len(c16CtxKinds)
 			s.CancelAt = enum // 0..n+1
+			if enum == c16ResolverCount(i)+2 {
+				// while user code coercing a variable is blocked
+				s.CancelAt = -1
+				s.CancelOn = "scalar"
+			}
 			switch rk {
 			case 1:
 				s.Faults = map[string]string{"R@*": FObserveCtx}
@@ -127,6 +141,7 @@ func (p c16) Gen(seed uint64, enum int, tier string) json.RawMessage {
 		s.Park = append(s.Park, "plan.caller.select")
 	}
 	s.Sticky = []int{0, 30, 60, 90}[r.Intn(4)]
+	s.Pre = r.Chance(30)
 	if r.Chance(75) {
 		qi := 0
 		for i, q := range c16Queries {
@@ -179,7 +194,8 @@ func (c16) Run(t TestingT, scn json.RawMessage, tape *Tape) *Outcome {
 	// reference: the same request run alone, cold, outside the simulator
 	soloW := NewWorld("A")
 	soloRC := &ReqCtx{Task: "solo", W: soloW, Faults: expandStar(faults), AllThunk: sc.AllThunk, RootTok: Tok{T: "Query"}}
-	solo := MarshalResult(graphql.Do(graphql.Params{Schema: soloW.Schema, RequestString: sc.Query, Context: WithReq(context.Background(), soloRC)}))
+	vars := c16Vars[sc.Query]
+	solo := MarshalResult(graphql.Do(graphql.Params{Schema: soloW.Schema, RequestString: sc.Query, VariableValues: vars, Context: WithReq(context.Background(), soloRC)}))
 
 	s := NewSim(tape)
 	s.Stickiness = sc.Sticky
@@ -189,15 +205,20 @@ func (c16) Run(t TestingT, scn json.RawMessage, tape *Tape) *Outcome {
 	var ctxErrText string
 	cancelled := false
 	resolverParks := 0
+	cancelOnSeen := false
 	s.OnEvent = func(ev *Event) {
 		if ev.Kind == "park" && SiteClass(ev.Site) == "resolver" {
 			resolverParks++
+		}
+		if ev.Kind == "park" && sc.CancelOn != "" && SiteClass(ev.Site) == sc.CancelOn {
+			cancelOnSeen = true
 		}
 	}
 	var fakeStart time.Time
 	pan := Bubble(t, s, func() {
 		fakeStart = time.Now()
 		w := NewWorld("A")
+		w.GateScalars = true
 		parent, parentCancel := context.WithCancel(context.Background())
 		var ctx context.Context
 		var cancel context.CancelFunc
@@ -224,6 +245,9 @@ func (c16) Run(t TestingT, scn json.RawMessage, tape *Tape) *Outcome {
 				if cancelled {
 					return false
 				}
+				if sc.CancelOn != "" {
+					return cancelOnSeen
+				}
 				if sc.CancelAt >= 0 {
 					return resolverParks >= sc.CancelAt
 				}
@@ -235,11 +259,24 @@ func (c16) Run(t TestingT, scn json.RawMessage, tape *Tape) *Outcome {
 				cancelled = true
 				doCancel()
 			})
-			a.Forced = sc.CancelAt >= 0 || sc.CancelStep >= 0
+			a.Forced = sc.CancelAt >= 0 || sc.CancelStep >= 0 || sc.CancelOn != ""
 		}
 		s.Spawn("c1", func(tc *TaskCtx) {
 			rc := &ReqCtx{Task: "c1", W: w, Faults: expandStar(faults), AllThunk: sc.AllThunk, Gates: true, RootTok: Tok{T: "Query"}}
 			rctx := WithReq(WithTask(ctx, "c1"), rc)
+			if sc.Pre {
+				// an earlier request of this process: cancelled before the call,
+				// on a schema whose extension contributes a result; nothing of
+				// it may show up in the request judged below
+				pw := NewWorld("P", &SimExt{N: "E1", R: &ExtRun{HasResult: map[string]bool{"E1": true}}})
+				pctx, pcancel := context.WithCancel(context.Background())
+				pcancel()
+				prc := &ReqCtx{Task: "c1", W: pw, RootTok: Tok{T: "Query"}}
+				graphql.Do(graphql.Params{Schema: pw.Schema, RequestString: `{ x1 }`, Context: WithReq(WithTask(pctx, "c1pre"), prc)})
+				pctx2, pcancel2 := context.WithDeadline(context.Background(), time.Now().Add(-time.Second))
+				graphql.Do(graphql.Params{Schema: pw.Schema, RequestString: `{ x1 }`, Context: WithReq(WithTask(pctx2, "c1pre"), prc)})
+				pcancel2()
+			}
 			s.Gate("c1", "client:call", "")
 			var res *graphql.Result
 			if sc.Entry == "plan" {
@@ -253,9 +290,9 @@ func (c16) Run(t TestingT, scn json.RawMessage, tape *Tape) *Outcome {
 					tc.Out["r"] = "plan error"
 					return
 				}
-				res = graphql.ExecutePlan(plan, graphql.ExecuteParams{Schema: w.Schema, Context: rctx})
+				res = graphql.ExecutePlan(plan, graphql.ExecuteParams{Schema: w.Schema, Args: vars, Context: rctx})
 			} else {
-				res = graphql.Do(graphql.Params{Schema: w.Schema, RequestString: sc.Query, Context: rctx})
+				res = graphql.Do(graphql.Params{Schema: w.Schema, RequestString: sc.Query, VariableValues: vars, Context: rctx})
 			}
 			tc.Out["r"] = MarshalResult(res)
 			kind := "other"
@@ -282,6 +319,9 @@ func (c16) Run(t TestingT, scn json.RawMessage, tape *Tape) *Outcome {
 	// classify the history
 	idxCancel, idxSend, idxReturned, idxSelectPark, idxSelectRun := -1, -1, -1, -1, -1
 	for i, e := range s.Trace {
+		if e.Task != "env" && e.Task != "c1" && !strings.HasPrefix(e.Task, "c1/") {
+			continue // the preceding request's goroutines
+		}
 		switch {
 		case e.Kind == "act" && e.Site == "cancel":
 			idxCancel = i
@@ -308,6 +348,9 @@ func (c16) Run(t TestingT, scn json.RawMessage, tape *Tape) *Outcome {
 		}
 		n := 0
 		for i, e := range s.Trace {
+			if !strings.HasPrefix(e.Task, "c1/") && e.Task != "c1" {
+				continue
+			}
 			if i > idxCancel && SiteClass(e.Site) == "resolver" && (e.Kind == "run" || e.Kind == "note") {
 				fk := faults["R@"+e.Info]
 				if fk == "" {
@@ -322,7 +365,7 @@ func (c16) Run(t TestingT, scn json.RawMessage, tape *Tape) *Outcome {
 		if n > 0 {
 			w2 := NewWorld("A")
 			rc2 := &ReqCtx{Task: "solo", W: w2, Faults: f2, AllThunk: sc.AllThunk, RootTok: Tok{T: "Query"}}
-			solo = MarshalResult(graphql.Do(graphql.Params{Schema: w2.Schema, RequestString: sc.Query, Context: WithReq(context.Background(), rc2)}))
+			solo = MarshalResult(graphql.Do(graphql.Params{Schema: w2.Schema, RequestString: sc.Query, VariableValues: vars, Context: WithReq(context.Background(), rc2)}))
 		}
 	}
 	got, finished := outs["c1"]["r"], outs["c1"] != nil
@@ -376,6 +419,9 @@ func (c16) Run(t TestingT, scn json.RawMessage, tape *Tape) *Outcome {
 			if callStarted && !sc.BothReady {
 				for i := idxCancel + 1; i < idxReturned; i++ {
 					e := s.Trace[i]
+					if strings.HasPrefix(e.Task, "c1pre") {
+						continue
+					}
 					if e.Kind == "run" || e.Kind == "act" {
 						o.Violate("C16/not-prompt", "caller did not return at the first quiescent point after cancellation: %s happened first", e.String())
 						break
